@@ -2,7 +2,7 @@
 import z3
 
 from pyvc.verify import Contract, LoopSpec
-from pyvc.values import SV, Seq, SymSeq, NDArr, NT, Opaque, PyExc
+from pyvc.values import SV, Seq, SymSeq, NDArr, NT, Opaque, PyExc, PDict
 from pyvc.interp import stamp
 from pyvc import interp as M
 from pyvc.iomodel import make_file
@@ -417,3 +417,226 @@ class TextSegmentEarlyExits(Contract):
 
 
 CONTRACTS.append(TextSegmentEarlyExits())
+
+
+# ---------------------------------------------------------------------------------------------
+class TextSegmentTokens(Contract):
+    """C14, bounded-symbolic: read_fcs_text_segment on a segment made of L tokens separated by L-1 delimiters, for every L up
+    to a bound (case label), every content of the tokens (arbitrary strings without the delimiter, empty or not -- the engine
+    explores every emptiness pattern), every delimiter character, primary and supplemental.  BOUNDED in the number of delimiter
+    occurrences only; labelled bounded in the evidence, never counted as a proof of the unbounded property.
+
+    The result is compared with a left-to-right reference reading of the FCS escaping rule written from the property text
+    (`reference` below): a doubled delimiter is a literal one, a single delimiter ends a field, no field may be empty or start
+    with the delimiter, the segment ends with a delimiter, fields pair up into keyword/value.
+    str.rfind / slicing / str.split are given their exact results on the token decomposition (hooks: A-STR)."""
+    target = 'FlowCal.io.read_fcs_text_segment'
+    property_ids = ('C14',)
+    frame = False
+    bounded_symbolic = True
+    max_paths = 3000
+    LMAX = 7
+    assumptions = ('read_fcs_text_segment: the declared extent lies inside the file and is not empty (other cases: TextSegmentEarlyExits)',
+                   'A-STR: for raw = t0 d t1 d ... t(L-1) with delimiter-free tokens: raw.rfind(d) is the position of the last d, '
+                   'raw[:that] = t0 d ... t(L-2), raw.split(d) = [t0, ..., t(L-1)] (exact results supplied by hooks)')
+
+    def cases(self):
+        out = []
+        for L in range(1, self.LMAX + 1):
+            for sup in (False, True):
+                out.append({'label': 'L%d-%s' % (L, 'supplemental' if sup else 'primary'), 'L': L, 'sup': sup})
+        return out
+
+    def setup(self, I, case):
+        c = I.ctx
+        L, sup = case['L'], case['sup']
+        buf = make_file(I, 'f')
+        fm = buf.payload
+        begin, end = c.fresh_int('begin'), c.fresh_int('end')
+        d = c.fresh_str('delim')
+        c.assume(z3.Length(d) == 1)
+        toks = [c.fresh_str('tok%d' % i) for i in range(L)]
+        for t in toks:
+            c.assume(z3.Not(z3.Contains(t, d)))
+
+        def join(ts):
+            e = ts[0]
+            for t in ts[1:]:
+                e = z3.Concat(e, d, t)
+            return e
+        from pyvc.iomodel import CONTENT
+        n = end + 1 - begin
+        txt = CONTENT(z3.IntVal(id(fm) % 100000), begin, n)
+        whole = join(toks)
+        c.assume(z3.And(begin >= 0, n > 0, fm.size - begin >= n, txt == whole))
+        facts = [(txt, list(toks))]
+        cuts = []
+
+        def same(e1, e2):
+            if z3.eq(e1, e2) or z3.eq(z3.simplify(e1), z3.simplify(e2)):
+                return True
+            if z3.is_app(e1) and z3.is_app(e2) and e1.decl().eq(e2.decl()) and e1.num_args() == e2.num_args() and e1.num_args() > 0 \
+                    and e1.decl().kind() == z3.Z3_OP_UNINTERPRETED:
+                return all((z3.is_int(x) and z3.is_int(y) and z3.is_int_value(z3.simplify(x - y)) and z3.simplify(x - y).as_long() == 0)
+                           or z3.eq(x, y) for x, y in zip(e1.children(), e2.children()))
+            return False
+
+        def lookup(I_, s):
+            e = I_.z(s)
+            for t_, ts in facts:
+                if same(e, t_):
+                    return ts
+            return None
+
+        def rfind_hook(I_, s, a, kw):
+            ts = lookup(I_, s)
+            if ts is None or not z3.eq(I_.z(a[0]), d):
+                raise M.Unsupported('rfind outside the token model')
+            if len(ts) == 1:
+                return -1
+            r = z3.IntVal(len(ts) - 2)
+            for t in ts[:-1]:
+                r = r + z3.Length(t)
+            cuts.append((r, I_.z(s)))
+            I_.ctx.use_axiom('A-STR:rfind of the delimiter on the token decomposition')
+            return SV(r, 'int')
+
+        def slice_hook(I_, obj, key):
+            if key.start is None and key.step is None and isinstance(key.stop, SV):
+                for r, src in cuts:
+                    if same(key.stop.z, r) and same(I_.z(obj), src):
+                        ts = lookup(I_, obj)[:-1]
+                        new = join(ts)
+                        facts.append((new, ts))
+                        return SV(new, 'str')
+            return None
+
+        def split_hook(I_, s, a, kw):
+            ts = lookup(I_, s)
+            if ts is None or not a or not z3.eq(I_.z(a[0]), d):
+                raise M.Unsupported('split outside the token model')
+            I_.ctx.use_axiom('A-STR:split at the delimiter on the token decomposition')
+            return stamp(Seq('list', [SV(t, 'str') for t in ts]))
+        self.config = {'rfind_hook': rfind_hook, 'str_slice_hook': slice_hook, 'split_hook': split_hook}
+        I.config.update(self.config)
+        aux = {'toks': toks, 'd': d, 'L': L, 'sup': sup}
+        kw = {'buf': buf, 'begin': SV(begin, 'int'), 'end': SV(end, 'int'), 'delim': SV(d, 'str'), 'supplemental': sup}
+        return [], kw, aux
+
+    def expected_outcomes(self, case):
+        return []
+
+    def witness(self, model, case, aux):
+        dv = mval(model, aux['d'])
+        ts = [mval(model, t) for t in aux['toks']]
+        if not isinstance(dv, str) or not all(isinstance(t, str) for t in ts):
+            return None
+        return {'mode': 'string', 'kind': 'supplemental' if aux['sup'] else 'primary', 'segment': dv.join(ts), 'delim': dv}
+
+    # ---- left-to-right reference reading (from the property text) ---------------------------------------------------------
+    @staticmethod
+    def reference(empty, toks, d, sup):
+        L = len(toks)
+        if not sup:
+            if not (L >= 2 and empty[0]):
+                return ('reject', 'not-starting-with-the-delimiter', None)
+            body = list(range(1, L))
+        else:
+            if L == 1:
+                # no delimiter at all: the whole segment is text that no delimiter closes
+                return ('reject', 'text-after-the-last-delimiter', None)
+            body = list(range(1, L)) if empty[0] else list(range(0, L))
+        if not empty[body[-1]]:
+            return ('reject', 'text-after-the-last-delimiter', None)
+        items = body[:-1]            # every one of these tokens is followed by one delimiter
+        if not items:
+            return ('accept', '', [])
+        if empty[items[0]]:
+            return ('reject', 'keyword-starting-with-the-delimiter', None)
+        fields = []
+        cur = toks[items[0]]
+        j = 0
+
+        def rep(n):
+            e = None
+            for _ in range(n):
+                e = d if e is None else z3.Concat(e, d)
+            return e
+        while True:
+            run, k = 1, j + 1
+            while k < len(items) and empty[items[k]]:
+                run += 1
+                k += 1
+            at_end = (k == len(items))
+            lit = run // 2
+            if run % 2 == 1:
+                if lit:
+                    cur = z3.Concat(cur, rep(lit))
+                fields.append(cur)
+                if at_end:
+                    break
+                cur = toks[items[k]]
+                j = k
+            else:
+                if at_end:
+                    if run == 2:
+                        if (len(fields) + 1) % 2:
+                            return ('reject', 'odd-number-of-fields', None)
+                        return ('tolerated', 'ends-with-two-delimiters', fields + [cur])
+                    return ('reject', 'ends-with-an-even-run-of-delimiters', None)
+                cur = z3.Concat(cur, rep(lit), toks[items[k]])
+                j = k
+        if len(fields) % 2:
+            return ('reject', 'odd-number-of-fields', None)
+        return ('accept', '', fields)
+
+    def check(self, I, case, aux, out):
+        c = I.ctx
+        P = c.prove
+        toks, d, sup = aux['toks'], aux['d'], aux['sup']
+        empty = [bool(c.branch(t == z3.StringVal(''))) for t in toks]
+        verdict, why, fields = self.reference(empty, toks, d, sup)
+        if verdict == 'n/a':
+            return
+        if out.kind == 'raise':
+            P('refusal-is-a-ValueError', out.raised('ValueError'))
+            P('refused-only-when-the-segment-cannot-be-split-under-the-escaping-rule', verdict == 'reject')
+            return
+        if verdict == 'reject':
+            P('segment-that-cannot-be-split-is-refused(%s)' % why, False)
+            return
+        v = out.value
+        ok = isinstance(v, Seq) and len(v.items) == 2 and isinstance(v.items[0], PDict)
+        P('returns-(dictionary, delimiter)', ok)
+        if not ok:
+            return
+        P('delimiter-returned', I.z(v.items[1]) == d)
+        if verdict == 'tolerated':
+            P('tolerated-ending-is-read-with-a-warning', len(getattr(I, 'warned', [])) > 0)
+        res = v.items[0]
+        # expected dictionary: later pairs win
+        exp = []
+        for j in range(0, len(fields), 2):
+            kx, vx = fields[j], fields[j + 1]
+            hit = None
+            for n_, (k0, _v0) in enumerate(exp):
+                if c.branch(k0 == kx):
+                    hit = n_
+                    break
+            if hit is None:
+                exp.append((kx, vx))
+            else:
+                exp[hit] = (exp[hit][0], vx)
+        P('number-of-keywords', len(res.keys) == len(exp))
+        for (kx, vx) in exp:
+            found = None
+            for kr, vr in zip(res.keys, res.vals):
+                if c.branch(I.z(kr) == kx):
+                    found = vr
+                    break
+            P('keyword-read-back', found is not None)
+            if found is not None:
+                P('value-read-back', I.z(found) == vx)
+
+
+CONTRACTS.append(TextSegmentTokens())
